@@ -114,6 +114,12 @@ func (o *objectValidator) checkArrayMustHaveItems(res *Result, val map[string]in
 		return
 	}
 
+	if o.isDefault() || o.isExample() || (len(o.Properties) == 0 && len(o.PatternProperties) == 0 && o.AdditionalProperties != nil) {
+		// a default or example value, a map of named things or free-form data (see
+		// checkItemsMustBeTypeArray): a member "type" holding the word "array" is data
+		return
+	}
+
 	t, typeFound := val[jsonType]
 	if !typeFound {
 		return
